@@ -50,6 +50,12 @@ def faults(df, roots):
             d = df.copy()
             d.loc[i, fk] = 99999
             yield f"{fk}-dangling", {"row": i}, d
+            # every other way of pointing at nobody: only -1 means "no such person"
+            absent = [v for v in (max(pids) + 1, min(pids) - 1, 0, -2, -3, -9999, -(2**31)) if v not in pids and v != -1]
+            for v in dict.fromkeys(absent):
+                d = df.copy()
+                d.loc[i, fk] = v
+                yield f"{fk}-dangling", {"row": i, "value": int(v)}, d
             d = df.copy()
             d.loc[i, fk] = pids[i]
             yield f"{fk}-self", {"row": i}, d
